@@ -742,6 +742,7 @@ type loopMod struct {
 func (x *Run) loopMod(fr *Frame, lp *loop) *loopMod {
 	lm := &loopMod{cells: map[*Cell]bool{}, arrs: map[string]bool{}}
 	ms := newModSet()
+	ms.loopScan = true
 	seen := map[*ssa.Function]bool{}
 	for b := range lp.blocks {
 		for _, ins := range b.Instrs {
